@@ -244,8 +244,12 @@ func (w *Watcher) fetchEvents(ctx context.Context, logger *zap.Logger, client *C
 				}
 				unconfirmedEvents = append(unconfirmedEvents, unconfirmed...)
 
+				// New events may have been emitted since the count was taken, in which case the node's
+				// cursor runs past it; and a page that makes no progress must not be requested again in
+				// this round either. The next tick continues from fromIndex.
+				madeProgress := events.NextStart > fromIndex
 				fromIndex = events.NextStart
-				if events.NextStart == *count {
+				if events.NextStart >= *count || !madeProgress {
 					break
 				}
 			}
